@@ -129,9 +129,24 @@ func tImp(a, b *Term) *Term {
 	return app(SBool, "=>", a, b)
 }
 
+func isNumLit(s string) bool {
+	if s == "" {
+		return false
+	}
+	for _, r := range s {
+		if r < '0' || r > '9' {
+			return false
+		}
+	}
+	return true
+}
+
 func tEq(a, b *Term) *Term {
 	if a.S == b.S {
 		return tTrue
+	}
+	if a.Sort == SInt && isNumLit(a.S) && isNumLit(b.S) {
+		return tFalse // two different non-negative literals
 	}
 	return app(SBool, "=", a, b)
 }
